@@ -104,8 +104,6 @@ Definition val_eqb (a b:val) : bool :=
   | VStr x, VStr y => match str_cmp x y with Eq => true | _ => false end
   | _, _ => false
   end.
-Fixpoint list_eqb {A} (e:A->A->bool) (a b:list A) : bool :=
-  match a, b with [], [] => true | x::r, y::s => e x y && list_eqb e r s | _, _ => false end.
 Definition row_eqb (a b:frow) : bool :=
   (r_ts a =? r_ts b)
   && list_eqb (fun x y => (fst x =? fst y) && (snd x =? snd y)) (r_vals a) (r_vals b)
